@@ -297,10 +297,16 @@ fn check(c: &Case, obs: &mut Obs) -> Verdict {
     }
     // the same faulted document embedded in index sections (with and without a url, nested)
     let inner = faulted.to_json_no_header();
+    let fine = "{\"version\":3,\"sources\":[\"ok.js\"],\"names\":[],\"mappings\":\"AAAA\"}";
     for (k, wrapped) in [
         format!("{{\"version\":3,\"sections\":[{{\"offset\":{{\"line\":0,\"column\":0}},\"map\":{inner}}}]}}"),
         format!("{{\"version\":3,\"sections\":[{{\"offset\":{{\"line\":1,\"column\":2}},\"url\":\"http://h/s.map\",\"map\":{inner}}}]}}"),
         format!("{{\"version\":3,\"sections\":[{{\"offset\":{{\"line\":0,\"column\":0}},\"map\":{{\"version\":3,\"sections\":[{{\"offset\":{{\"line\":0,\"column\":0}},\"url\":\"u\",\"map\":{inner}}}]}}}}]}}"),
+        // next to well-formed sections: after one at the same offset, after one at another offset, between two, before one
+        format!("{{\"version\":3,\"sections\":[{{\"offset\":{{\"line\":2,\"column\":0}},\"map\":{fine}}},{{\"offset\":{{\"line\":2,\"column\":0}},\"map\":{inner}}}]}}"),
+        format!("{{\"version\":3,\"sections\":[{{\"offset\":{{\"line\":0,\"column\":0}},\"map\":{fine}}},{{\"offset\":{{\"line\":5,\"column\":0}},\"map\":{inner}}}]}}"),
+        format!("{{\"version\":3,\"sections\":[{{\"offset\":{{\"line\":0,\"column\":0}},\"map\":{fine}}},{{\"offset\":{{\"line\":0,\"column\":0}},\"map\":{inner}}},{{\"offset\":{{\"line\":0,\"column\":0}},\"map\":{fine}}}]}}"),
+        format!("{{\"version\":3,\"sections\":[{{\"offset\":{{\"line\":3,\"column\":1}},\"map\":{inner}}},{{\"offset\":{{\"line\":0,\"column\":0}},\"map\":{fine}}}]}}"),
     ]
     .iter()
     .enumerate()
@@ -310,7 +316,7 @@ fn check(c: &Case, obs: &mut Obs) -> Verdict {
             Ok(Ok(_)) => {
                 return Verdict::Fail(format!(
                     "malformed mappings {text:?} ({why:?}) are accepted when the map is embedded in an index section (wrapping {k}: {})",
-                    ["plain section", "section with url", "nested section with url"][k]
+                    ["plain section", "section with url", "nested section with url", "second of two sections at one offset", "second of two sections", "middle of three sections at one offset", "first of two sections given out of order"][k]
                 ))
             }
             Err(p) => return Verdict::Fail(format!("decoding wrapped faulted mappings: {p}")),
